@@ -29,7 +29,7 @@ XML = """
   </worldbody>
   <equality><weld body1="b" body2="c" active="true"/></equality>
   <actuator>
-    <dcmotor name="dc" joint="s2" motorconst="0.05" resistance="2.0" damping="0.001" lugre="1e4 100 0.005 0.008 0.1" inductance="0 0.001"/>
+    <dcmotor name="dc" joint="s2" motorconst="0.05" resistance="2.0" damping="0.001" lugre="1e4 100 0.005 0.008 0.1" inductance="0 0.001" THERMAL/>
     <motor joint="h1" DELAY/>
     <general joint="s1" dyntype="filter" dynprm="0.05"/>
   </actuator>
@@ -48,6 +48,9 @@ def _run(ctx, ncases, rec_kernels):
     for c in range(ncases):
       delay = rng.random() < 0.6
       xml = XML.replace("DELAY", 'delay="0.03" nsample="4"' if delay else "")
+      # two cases in three have MORE activation states than actuators (na = 4 > nu = 3: the tail act[nu:na] is the filter state, nonzero)
+      thermal = c % 3 != 2
+      xml = xml.replace("THERMAL", 'thermal="10 0.01 0 0 25 25"' if thermal else "")
       mjm = mujoco.MjModel.from_xml_string(xml)
       mjd = mujoco.MjData(mjm)
       nworld = int(rng.integers(1, 4))
@@ -97,6 +100,9 @@ def _run(ctx, ncases, rec_kernels):
           for nm, (a, b) in offs.items():
             if not np.array_equal(after[w, a:b], fr[w, a:b]):
               trig = {"act": "act-tail", "history": "history-not-reset"}.get(nm, "state-" + nm)
+              if nm == "history" and not np.array_equal(after[w, a:b], before[w, a:b]):
+                # the recorded finding is exactly "reset_data leaves the buffers as they were"; any other content is a different fault
+                trig = "state-history"
               if nm == "act":
                 bad = np.nonzero(after[w, a:b] != fr[w, a:b])[0]
                 trig = "act-tail" if bad.min() >= mjm.nu else "act"
@@ -113,6 +119,9 @@ def _run(ctx, ncases, rec_kernels):
                      "nacon-world0" if lost else "phantom-contact", xml=xml, mask=mask.tolist(), world=w)
       acc.sample({"nworld": nworld, "mask": mask.tolist(), "delay": delay, "na": int(mjm.na), "nu": int(mjm.nu), "nhistory": int(mjm.nhistory)})
       acc.hit("delay" if delay else "nodelay")
+      acc.hit("na>nu" if mjm.na > mjm.nu else "na<=nu")
+      if mjm.na > mjm.nu and np.abs(before[:, offs["act"][0] + mjm.nu:offs["act"][1]]).max() > 0:
+        acc.hit("act-tail-nonzero-before-reset")
       acc.hit("full" if mask.all() else "partial")
 
   if rec_kernels:
